@@ -124,6 +124,9 @@ def _run_shard(args):
     fn, shard = args
     try:
         quiet()
+        if mp.current_process().name != "MainProcess" and not getattr(_run_shard, "_own", None):
+            _run_shard._own = tempfile.mkdtemp(prefix="p%d-" % os.getpid(), dir=scratch_root())
+            tempfile.tempdir = _run_shard._own
         c = Collector()
         fn(shard, c)
         return ("ok", c)
